@@ -55,6 +55,8 @@ def run(ctx):
         ctx.report.rules[-1].id = "R03.6(R08.8)"
         from .. import wrappers
         wrappers.vv_conversions(ctx, rep, roles, "C03", "R03.7")
+        # "no heartbeat recorded for X exceeds X's own": the owner's heartbeat never goes back (no wrap)
+        wrappers.heartbeat_inc(ctx, rep, roles, "C03", "R03.9")
         from .. import identity
         identity.check(ctx, rep, "C03", "R03.8", ["id-eq", "id-ord", "vv-clone", "kvm-clone", "dsm-eq"])
     except ModelError as e:
